@@ -97,6 +97,16 @@ LayoutSeq(t) ==
             (IF t.ext THEN << <<"ahead", NBits(t)>> >> ELSE <<>>)
             \o FoldLeft(LAMBDA acc, x : acc \o LayoutSeq(t.fields[x].t), <<>>, Order(t.fields))
 
+(* the value domains of the enum leaves of a type, in wire order: a rewrite that makes a field *)
+(* denote an enum with other members changed the resolved type, whatever its width           *)
+RECURSIVE EnumDomains(_)
+EnumDomains(t) ==
+    CASE t.k = "enum" -> << IF "vals" \in DOMAIN t THEN {TrimZeros(t.vals[x]) : x \in 1..Len(t.vals)} ELSE {} >>
+      [] IsLeaf(t) -> <<>>
+      [] t.k = "alias" -> EnumDomains(t.to)
+      [] t.k = "array" -> EnumDomains(t.elem)
+      [] t.k = "msg" -> FoldLeft(LAMBDA acc, x : acc \o EnumDomains(t.fields[x].t), <<>>, Order(t.fields))
+
 (* ---- C19: what the Go / Python standard-mode output has to say about a message type ---- *)
 RECURSIVE GoShape(_)
 GoShape(t) ==
@@ -276,7 +286,9 @@ Check(tr, e) ==
       [] e.ev = "SameLayout" ->
             LET a == LayoutSeq(e.t1)
                 b == LayoutSeq(e.t2)
-            IN  IF a # b THEN "skip:rewrite-not-layout-preserving" ELSE ""
+            IN  IF a # b THEN "skip:rewrite-not-layout-preserving"
+                ELSE IF EnumDomains(e.t1) # EnumDomains(e.t2) THEN "skip:rewrite-changes-an-enum-domain"
+                ELSE ""
       [] e.ev = "SameBytes" -> IF e.a # e.b THEN "bytes-changed-by-rewrite" ELSE ""
       [] e.ev = "Size" -> IF e.n # NBytes(t) THEN "size" ELSE ""
       [] e.ev = "Json" ->
